@@ -230,9 +230,12 @@ def b_incremental(job):
         opts = _opts("proofs")
     cfg = job.get("cfg", "c0")
     opts = opts + _opts(cfg)
-    body = G.random_history(g, rng, n_assert=job.get("n_assert", 7), p_named=p_named, queries=queries,
-                            max_depth=3, fdepth=2, min_checks=2)
-    if track == "itp":
+    if job.get("mode") == "reenter":
+        body = G.reenter_history(g, rng, queries=[q for q in queries if q["c"] != "get-unsat-core"] if track != "cores" else queries)
+    else:
+        body = G.random_history(g, rng, n_assert=job.get("n_assert", 7), p_named=p_named, queries=queries,
+                                max_depth=3, fdepth=2, min_checks=2)
+    if track == "itp" and job.get("mode") != "reenter":
         body = add_itp_queries(body, rng)
     cmds = G.preamble(g, opts) + body
     fam = C.Family(g)
@@ -449,6 +452,19 @@ def b_cores(job):
             rng.shuffle(ins)
         body[first_check:first_check] = ins
         body.insert(rng.choice([0, 0, max(0, first_check - 1)]), {"c": "assert", "t": a, "nm": "", "inner": []})
+    if job.get("minimal") and g.bools and rng.random() < 0.45:
+        # alternative named reasons for the same conflict: a named assertion gets a stronger or a weaker twin under
+        # another name (neither is the same formula), so a core can go through either and minimisation has a choice
+        tb = g.tb
+        named = [i for i, c in enumerate(body) if c["c"] == "assert" and c.get("nm") and not c.get("inner")]
+        if named:
+            i = rng.choice(named)
+            f = body[i]["t"]
+            x = rng.choice(g.bools)
+            twin = tb.app(rng.choice(["and", "and", "or"]), [f, x if rng.random() < 0.7 else tb.app("not", [x])])
+            used = {c.get("nm") for c in body}
+            nm = next(n for n in ("tw%d" % k for k in range(1, 50)) if n not in used)
+            body.insert(i + rng.choice([0, 1]), {"c": "assert", "t": twin, "nm": nm, "inner": []})
     cfg = job.get("cfg", "c0")
     cmds = G.preamble(g, opts + _opts(cfg)) + body
     fam = C.Family(g)
